@@ -1567,7 +1567,10 @@ impl<'source> FormatItem<'source> {
                     _ if item.is_indented_block() => {
                         // No need to worry about adjusting the line width here,
                         // an indented block is always the last item in a group.
-                        item.render(&mut item_buffer, false, false, options, group_column)?;
+                        // The block is indented relative to the group's start,
+                        // whether or not items on continuation lines (e.g. a comment after `=`)
+                        // were indented before it.
+                        item.render(&mut item_buffer, false, false, options, column)?;
                         output.extend(item_buffer.drain(..));
                         group_break = GroupBreak::None;
                     }
